@@ -28,8 +28,10 @@ type Reader struct {
 
 	r         io.ByteReader
 	err       error  // Last read error, if any
+	readErr   error  // error returned by r, if any
 	current   uint32 // up to 4 bytes of input, valid bits MSB-aligned
 	validBits int    // number of valid bits in current
+	padBits   int    // number of trailing bits in current which lie beyond the end of the input
 
 	line    []byte // Current line being decoded
 	refLine []byte // Reference line (previous line) for 2D decoding
@@ -377,8 +379,15 @@ func (r *Reader) peekBits(n int) uint32 {
 
 	for r.validBits < n {
 		var x byte
-		if r.err == nil { // after the first error, use an inifinite stream of zeros
-			x, r.err = r.r.ReadByte()
+		if r.err == nil && r.readErr == nil {
+			x, r.readErr = r.r.ReadByte()
+		}
+		if r.err != nil || r.readErr != nil {
+			// After the first error, use an infinite stream of zeros.
+			// Looking ahead beyond the end of the input is not an error,
+			// only consuming such bits is.
+			x = 0
+			r.padBits += 8
 		}
 		r.current |= uint32(x) << (24 - r.validBits)
 		r.validBits += 8
@@ -392,6 +401,13 @@ func (r *Reader) consumeBits(n int) {
 	}
 	r.current <<= n
 	r.validBits -= n
+	if r.validBits < r.padBits {
+		// bits beyond the end of the input have been consumed
+		r.padBits = r.validBits
+		if r.err == nil {
+			r.err = r.readErr
+		}
+	}
 }
 
 func (r *Reader) readBits(n int) uint32 {
